@@ -146,6 +146,9 @@ def corpora(tier, pid=PID):
 
 def run(res, tier, backend=BACKEND, pid=PID, cross=False, portmap=False, uns=False):
     batches = []
+    # a safety net only: one TLC process of the thorough tier interprets for 10-20 minutes on an idle machine,
+    # several times longer on a loaded one
+    svcheck.TLC_TIMEOUT = 3000 if tier == "quick" else 6 * 3600
     for label, specs, nrand, ncyc in corpora(tier, pid):
         if not specs:
             raise MachineryError("empty corpus %s" % label)
